@@ -8,13 +8,14 @@ CHECKS = {'C19': {'level': 'model_checking',
                       'assignment histories, every history replayed on a fresh real parameter next to a reference '
                       'model written from the statement; bounded-exhaustive enumeration of every id of the 11 factories',
          'level_text': 'for each of 9 parameter shapes (enum, integer and scalar with <=/< bounds, integer and scalar '
-                       'pairs with ordering constraints, string) the state graph over a 24..56-operation alphabet '
+                       'pairs with ordering constraints, string) the state graph over a 24..57-operation alphabet '
                        '(int/float/pair/string/enum assignments incl. NaN, inf, boundary +-1 ulp, garbage text, '
                        'write+read, copy) is explored until closed (the canonical state is the complete object state, '
                        'so the closed graph covers histories of any length over the alphabet); in addition every '
                        'history up to length 3 (quick) / 4 (thorough) over the full alphabet and up to 4 / 5 (6 for the two scalar '
                        'shapes) over a 10..16-operation core alphabet is executed without deduplication; every transition is judged '
-                       'on clauses (i)-(v). All ids of the 11 factories are checked for id, defaults, clone equality, '
+                       'on clauses (i)-(iii)/(v) and the reader sweep (iv)+(v) is run on the final state of every '
+                       'history except the full-alphabet ones of length 4. All ids of the 11 factories are checked for id, defaults, clone equality, '
                        'independence and a behaviour probe. Not a proof for values outside the alphabets',
          'level_note': 'trusted: the reference model (about 200 lines incl. the text-to-number classification), '
                        'strtod as the meaning of a decimal literal, g++ 12; the real objects of the factories are '
